@@ -13,6 +13,7 @@ EXPLANATION = (
     "fenced by the writer lock and the epoch comparison, and a fresh epoch takes the lock before reloading the ledger. "
     "That recovery reconstructs exactly the longest committed prefix for every torn length is NOT decided."
     " Round 2: (R8) truncation is physical — every success return of the truncating rewrite passes the segment rewrite, both truncation arms of writable recovery propagate their result, and the writer's after-error cursor refresh recovers through the truncating recovery; (R9) sibling agreement between dense-LSN recovery and the derivation of a fresh writer epoch's first LSN (known finding F9)."
+    ' (R10) both rebuilders of the durable retry index take every recovered submission (no filtering adaptor).'
 )
 ASSUMPTIONS = ["fsync/rename semantics of the host file system", "a single segment file: sync_all of the commit record also flushes earlier frames"]
 FLOOR = 60
